@@ -12,7 +12,8 @@ def gen_graph_history(rng, B, thorough):
     n_nodes = rng.randrange(1, B - 1)
     for i in range(n_nodes):
         ops.append((rng.choice([0, 0, 0, 1]), 100 + i, 0, 0)); al.add()
-    wset = rng.choice([[0, 1, 1, 2, 3], [1, 1, 1, 2, 2, 5], [0, 0, 1, 7, 10], [1, 2, 3, 4, 5, 6, 7, 8, 9]])
+    wset = rng.choice([[0, 1, 1, 2, 3], [1, 1, 1, 2, 2, 5], [0, 0, 1, 7, 10], [1, 2, 3, 4, 5, 6, 7, 8, 9],
+                       [1, 3, 2**32, 2**32 + 5, 2**33, 2**32 - 1], [7, 2**20, 2**40, 2**40 + 1, 2**31, 2**52]])      # weights are u64: beyond 32 bits too
     for _ in range(rng.randrange(0, 3 * n_nodes + 3)):
         r = rng.random()
         live = sorted(al.live)
